@@ -24,6 +24,9 @@ theorem ser_kind : ∀ (s : Schema) (v : Val), hasType s v = true → kindOf (se
   | .untagged alts, v, h => by
       cases v <;> simp_all [hasType, ser, shape]
       rename_i i x; exact serAlt_kind alts i x h.1
+  | .refine s p, v, h => by
+      simp [hasType] at h
+      simpa [ser, shape] using ser_kind s v h.1
 theorem serAlt_kind : ∀ (alts : Fields) (i : Nat) (v : Val), typedAlt alts i v = true → kindOf (serAlt alts i v) ∈ shapeAlts alts
   | .nil, _, _, h => by simp [typedAlt] at h
   | .cons _ _ s tl, i, v, h => by
@@ -52,6 +55,9 @@ theorem de_kind : ∀ (s : Schema) (j : Json), kindOf j ∉ shape s → de s j =
   | .internal _ _, j, h => by cases j <;> simp_all [de, shape, kindOf]
   | .untagged alts, j, h => by
       simp only [de]; exact deUntagged_kind alts j 0 (by simpa [shape] using h)
+  | .refine s p, j, h => by
+      have := de_kind s j (by simpa [shape] using h)
+      simp [de, this]
 theorem deUntagged_kind : ∀ (alts : Fields) (j : Json) (k : Nat), kindOf j ∉ shapeAlts alts → deUntagged alts j k = none
   | .nil, _, _, _ => by simp [deUntagged]
   | .cons _ _ s tl, j, k, h => by
